@@ -83,3 +83,29 @@ package accumulated_scenario_filters
 //@   # single pending pod (the class C05 speaks about): pruned iff no holder has the capacity
 //@   ensures [singleTaskExact] len(requirements) == 1 && sortedDesc(holders, capacity) ==> (result <==> requirements[0] == 0.0 || someHolderFits(holders, capacity, requirements[0]))
 //@ end
+
+// ---- C10: the constructor is total in its scenario argument ------------------------------------------------
+// NewPodAccumulatedScenarioBuilder passes scenario == nil whenever the (partial) pending job has nothing to allocate
+// (its own `if len(tasksToAllocate) != 0 { scenario = ... }`); the two sibling constructors (NewNodeAffinitiesFilter,
+// NewTopologyAwareIdleGpusFilter) answer nil for a nil scenario and the builder skips nil filters. So the contract of
+// this constructor has NO precondition on scenario, and its no-panic obligations are checked for scenario == nil too.
+//@ func createGpuMap
+//@   props C10
+//@   trusted
+//@   note trusted: ordered insertion through generic helpers with a closure comparator; only "returns, writes nothing of the caller" is used by the constructor (the helpers' index bounds are checked above)
+//@ end
+//@ func (*AccumulatedIdleGpus).updateStateWithScenario
+//@   props C10
+//@   requires ig != nil
+//@   requires scenario != nil
+//@   trusted
+//@   note trusted: body not checked here; the precondition is what its first statement needs (updateRequiredResources reads scenario.PendingTasks()); checked at every call site
+//@   modifies *
+//@ end
+//@ func NewIdleGpusFilter
+//@   props C10
+//@   requires scenario != nil ==> scenario.BaseScenario != nil
+//@   note the precondition is the type invariant of ByNodeScenario (NewByNodeScenario, its only constructor, always sets the embedded *BaseScenario); nothing is required of a nil scenario
+//@   modifies *
+//@   ensures [nilScenarioNoFilter] scenario == nil ==> result == nil
+//@ end
